@@ -1,7 +1,7 @@
 (* Lemmas about the concurrent semantics of EnvFsm.v (threads, schedules, the transition mutex)
-   for property C01: mutual exclusion under every schedule, refinement of every schedule without
-   an unlocked forced state into an atomic (one action at a time) execution, the documented graph
-   under every such schedule, and the two schedules that refute the unrestricted statements. *)
+   for property C01: mutual exclusion under every schedule, refinement of every schedule into an
+   atomic (one action at a time) execution, the documented graph under every schedule, and the two
+   schedules that refuted the statements before the forced state was taken under the mutex. *)
 From Verif Require Import Common EnvFsmTypes Gen_EnvEvents Gen_EnvCan EnvFsm EnvFsm_proofs.
 Open Scope N_scope.
 
@@ -116,7 +116,8 @@ Proof.
       cbn [c_threads c_lock]. count_set Hn. rewrite Hp in Hc. cbn in Hc. cbn in *. lia.
     + destruct (c_lock c) eqn:L; [rewrite L; exact H|].
       cbn [c_threads c_lock]. count_set Hn. rewrite Hp in Hc. cbn in Hc. cbn in *. lia.
-    + count_set Hn. rewrite Hp in Hc. cbn in Hc. lia.
+    + destruct (c_lock c) eqn:L; [rewrite L; exact H|].
+      cbn [c_threads c_lock]. count_set Hn. rewrite Hp in Hc. cbn in Hc. cbn in *. lia.
     + count_set Hn. rewrite Hp in Hc. cbn in Hc. lia.
   - destruct (sec_commit sec) as [[d u]|]; cbn [c_threads c_lock];
       count_set Hn; rewrite Hp in Hc; cbn in Hc; lia.
@@ -146,34 +147,9 @@ Proof.
 Qed.
 
 (* ------------------------------------------------------------------------------------------ *)
-(* A forced state that lands inside a locked section, or on a DONE environment, is recorded in
-   c_hazard, and stays recorded *)
-Lemma hazard_step c i : c_hazard c = true -> c_hazard (cstp c i) = true.
-Proof.
-  unfold cstp, cstep. intro H.
-  destruct (nth_error (c_threads c) i) as [th|]; [|exact H]. cbv zeta.
-  destruct (th_phase th) as [|sec k|sec k].
-  - destruct (th_prog th) as [cd s|a k]; [exact H|].
-    destruct a; cbn [c_hazard]; try exact H.
-    + destruct (c_lock c); exact H.
-    + destruct (c_lock c); exact H.
-    + rewrite H. reflexivity.
-  - destruct (sec_commit sec) as [[d u]|]; exact H.
-  - exact H.
-Qed.
-
-Lemma hazard_runs sched : forall c, c_hazard c = true -> c_hazard (runs sched c) = true.
-Proof.
-  induction sched as [|i r IH]; intros c H; [exact H|]. cbn. apply IH, hazard_step, H.
-Qed.
-
-Lemma no_hazard_back c i : c_hazard (cstp c i) = false -> c_hazard c = false.
-Proof. intro H. destruct (c_hazard c) eqn:E; [|reflexivity]. rewrite (hazard_step c i E) in H. discriminate. Qed.
-
-(* ------------------------------------------------------------------------------------------ *)
-(* While no such forced state happens, the section a thread computed when it took the mutex is
-   still the section of the current state when it commits *)
-Definition locked_act (a : act) : bool := match a with ATry _ | ATeardown _ => true | _ => false end.
+(* Every state write happens under the mutex, so the section a thread computed when it took the
+   mutex is still the section of the current state when it commits *)
+Definition locked_act (a : act) : bool := match a with ATry _ | ATeardown _ | AForce _ => true | _ => false end.
 
 Definition th_inv (w : world) (th : thread) : Prop :=
   match th_phase th with
@@ -199,14 +175,14 @@ Proof.
 Qed.
 
 Lemma inv_step c i :
-  mutex c -> ths_inv c -> c_hazard (cstp c i) = false -> ths_inv (cstp c i).
+  mutex c -> ths_inv c -> ths_inv (cstp c i).
 Proof.
-  unfold mutex, ths_inv, cstp, cstep. intros Hm Hi Hh.
+  unfold mutex, ths_inv, cstp, cstep. intros Hm Hi.
   destruct (nth_error (c_threads c) i) as [th|] eqn:Hn; [|exact Hi].
   cbv zeta in *.
   destruct (th_phase th) as [|sec k|sec k] eqn:Hp.
   - destruct (th_prog th) as [cd s|a k] eqn:Hpr; [exact Hi|].
-    destruct a; cbn [c_threads c_w c_hazard] in *.
+    destruct a; cbn [c_threads c_w] in *.
     + intros j t Ht. destruct (set_cases _ _ _ _ _ _ Hn Ht) as [[_ E]|[_ E]]; [subst; exact I|exact (Hi _ _ E)].
     + destruct (c_lock c) eqn:L; [exact Hi|]. cbn [c_threads c_w].
       intros j t Ht. destruct (set_cases _ _ _ _ _ _ Hn Ht) as [[_ E]|[_ E]]; [|exact (Hi _ _ E)].
@@ -214,11 +190,9 @@ Proof.
     + destruct (c_lock c) eqn:L; [exact Hi|]. cbn [c_threads c_w].
       intros j t Ht. destruct (set_cases _ _ _ _ _ _ Hn Ht) as [[_ E]|[_ E]]; [|exact (Hi _ _ E)].
       subst. unfold th_inv. cbn [th_phase th_prog th_or]. exists (ATeardown force). split; [reflexivity|split; reflexivity].
-    + (* forced state: nobody is inside a section *)
-      apply orb_false_iff in Hh. destruct Hh as [Hh _]. apply orb_false_iff in Hh. destruct Hh as [_ L].
-      rewrite L in Hm. cbn in Hm.
-      intros j t Ht. destruct (set_cases _ _ _ _ _ _ Hn Ht) as [[_ E]|[_ E]]; [subst; exact I|].
-      apply th_inv_idle. eapply cnt_zero_idle; eassumption.
+    + destruct (c_lock c) eqn:L; [exact Hi|]. cbn [c_threads c_w].
+      intros j t Ht. destruct (set_cases _ _ _ _ _ _ Hn Ht) as [[_ E]|[_ E]]; [|exact (Hi _ _ E)].
+      subst. unfold th_inv. cbn [th_phase th_prog th_or]. exists (AForce s). split; [reflexivity|split; reflexivity].
     + intros j t Ht. destruct (set_cases _ _ _ _ _ _ Hn Ht) as [[_ E]|[_ E]]; [subst; exact I|exact (Hi _ _ E)].
   - (* commit: every other thread is idle *)
     assert (Hb : busy th = true) by (unfold busy, th_idle; rewrite Hp; reflexivity).
@@ -288,8 +262,8 @@ Proof.
       apply (abs_same_threads _ _ _ _ Hn). rewrite Habs. unfold th_abs. cbn [th_phase th_prog th_or]. reflexivity.
     + left. destruct (c_lock c); [reflexivity|]. unfold abs. cbn [c_w c_threads]. f_equal.
       apply (abs_same_threads _ _ _ _ Hn). rewrite Habs. unfold th_abs. cbn [th_phase th_prog th_or]. reflexivity.
-    + right. unfold abs, astep. cbn [c_w c_threads fst snd]. rewrite Hnm, Habs. cbn [exec_act].
-      rewrite map_set_nth. reflexivity.
+    + left. destruct (c_lock c); [reflexivity|]. unfold abs. cbn [c_w c_threads]. f_equal.
+      apply (abs_same_threads _ _ _ _ Hn). rewrite Habs. unfold th_abs. cbn [th_phase th_prog th_or]. reflexivity.
     + right. unfold abs, astep. cbn [c_w c_threads fst snd]. rewrite Hnm, Habs. cbn [exec_act].
       rewrite map_set_nth. reflexivity.
   - (* commit = the atomic execution of the section *)
@@ -314,19 +288,16 @@ Proof.
   rewrite pair_eta. reflexivity.
 Qed.
 
-(* every schedule without an unlocked forced state inside a section is an atomic execution of the
-   same actions, in the order in which the sections commit *)
+(* every schedule is an atomic execution of the same actions, in the order in which the sections
+   commit *)
 Lemma refinement sched :
-  forall c, mutex c -> ths_inv c -> c_hazard (runs sched c) = false ->
+  forall c, mutex c -> ths_inv c ->
   exists order, subseq order sched /\ abs (runs sched c) = run_atomic order (abs c).
 Proof.
-  induction sched as [|i r IH]; intros c Hm Hi Hh.
+  induction sched as [|i r IH]; intros c Hm Hi.
   - exists []. split; [constructor|reflexivity].
   - change (runs (i :: r) c) with (runs r (cstp c i)) in *.
-    assert (Hh1 : c_hazard (cstp c i) = false).
-    { destruct (c_hazard (cstp c i)) eqn:E; [|reflexivity].
-      rewrite (hazard_runs r _ E) in Hh. discriminate. }
-    destruct (IH (cstp c i) (mutex_step c i Hm) (inv_step c i Hm Hi Hh1) Hh) as [order [Hs He]].
+    destruct (IH (cstp c i) (mutex_step c i Hm) (inv_step c i Hm Hi)) as [order [Hs He]].
     destruct (sim_step c i Hi) as [E|E].
     + exists order. split; [constructor; exact Hs|]. rewrite <- E. exact He.
     + exists (i :: order). split; [constructor; exact Hs|].
@@ -335,15 +306,14 @@ Proof.
 Qed.
 
 Lemma serial_refinement sched w ths :
-  c_hazard (runs sched (init_c w ths)) = false ->
   exists order, subseq order sched /\ abs (runs sched (init_c w ths)) = run_atomic order (w, ths).
 Proof.
-  intro Hh. destruct (refinement sched _ (mutex_init w ths) (inv_init w ths) Hh) as [order [Hs He]].
+  destruct (refinement sched _ (mutex_init w ths) (inv_init w ths)) as [order [Hs He]].
   exists order. rewrite abs_init in He. split; assumption.
 Qed.
 
 (* ------------------------------------------------------------------------------------------ *)
-(* The documented graph under every schedule without such a forced state *)
+(* The documented graph under every schedule *)
 Definition th_ok (th : thread) : Prop :=
   match th_phase th with
   | TPost sec k => forall r, prog_ok (k r)
@@ -366,16 +336,16 @@ Proof.
 Qed.
 
 Lemma graph_step c i :
-  mutex c -> ths_inv c -> G c -> c_hazard (cstp c i) = false -> G (cstp c i).
+  mutex c -> ths_inv c -> G c -> G (cstp c i).
 Proof.
-  unfold G, ths_ok, ths_inv, cstp, cstep. intros Hm Hi [Hok [HJ He]] Hh.
+  unfold G, ths_ok, ths_inv, cstp, cstep. intros Hm Hi [Hok [HJ He]].
   destruct (nth_error (c_threads c) i) as [th|] eqn:Hn; [|repeat split; assumption].
   cbv zeta in *.
   pose proof (Hok _ _ Hn) as Hth. unfold th_ok in Hth.
   destruct (th_phase th) as [|sec k|sec k] eqn:Hp.
   - destruct (th_prog th) as [cd s|a k] eqn:Hpr; [repeat split; assumption|].
     destruct (prog_ok_inv _ _ Hth) as [Ha Hk].
-    destruct a; cbn [c_threads c_w c_hazard c_edges] in *.
+    destruct a; cbn [c_threads c_w c_edges] in *.
     + split; [|split; assumption].
       intros j t Ht. destruct (set_cases _ _ _ _ _ _ Hn Ht) as [[_ E]|[_ E]]; [|exact (Hok _ _ E)].
       subst. unfold th_ok. cbn [th_phase th_prog]. apply Hk.
@@ -387,15 +357,10 @@ Proof.
       split; [|split; assumption].
       intros j t Ht. destruct (set_cases _ _ _ _ _ _ Hn Ht) as [[_ E]|[_ E]]; [|exact (Hok _ _ E)].
       subst. unfold th_ok. cbn [th_phase th_prog]. exact Hth.
-    + (* forced state: ERROR, on an environment that is not DONE *)
-      cbn [act_ok] in Ha. subst s.
-      apply orb_false_iff in Hh. destruct Hh as [_ Hd]. apply estate_eqb_neq in Hd.
-      split; [|split].
-      * intros j t Ht. destruct (set_cases _ _ _ _ _ _ Hn Ht) as [[_ E]|[_ E]]; [|exact (Hok _ _ E)].
-        subst. unfold th_ok. cbn [th_phase th_prog]. apply Hk.
-      * unfold J. cbn [w_st]. discriminate.
-      * apply write_edges_ok; [exact He|].
-        destruct (w_st (c_w c)); cbn; try (right; reflexivity); [left; reflexivity|contradiction Hd; reflexivity].
+    + destruct (c_lock c) eqn:L; [repeat split; assumption|]. cbn [c_threads c_w c_edges].
+      split; [|split; assumption].
+      intros j t Ht. destruct (set_cases _ _ _ _ _ _ Hn Ht) as [[_ E]|[_ E]]; [|exact (Hok _ _ E)].
+      subst. unfold th_ok. cbn [th_phase th_prog]. exact Hth.
     + split; [|split; assumption].
       intros j t Ht. destruct (set_cases _ _ _ _ _ _ Hn Ht) as [[_ E]|[_ E]]; [|exact (Hok _ _ E)].
       subst. unfold th_ok. cbn [th_phase th_prog]. apply Hk.
@@ -419,13 +384,11 @@ Proof.
 Qed.
 
 Lemma graph_runs sched :
-  forall c, mutex c -> ths_inv c -> G c -> c_hazard (runs sched c) = false -> G (runs sched c).
+  forall c, mutex c -> ths_inv c -> G c -> G (runs sched c).
 Proof.
-  induction sched as [|i r IH]; intros c Hm Hi Hg Hh; [exact Hg|].
+  induction sched as [|i r IH]; intros c Hm Hi Hg; [exact Hg|].
   change (runs (i :: r) c) with (runs r (cstp c i)) in *.
-  assert (Hh1 : c_hazard (cstp c i) = false).
-  { destruct (c_hazard (cstp c i)) eqn:E; [|reflexivity]. rewrite (hazard_runs r _ E) in Hh. discriminate. }
-  apply IH; [apply mutex_step; exact Hm|apply inv_step; assumption|apply graph_step; assumption|exact Hh].
+  apply IH; [apply mutex_step; exact Hm|apply inv_step; assumption|apply graph_step; assumption].
 Qed.
 
 Lemma G_init w ths :
@@ -439,11 +402,10 @@ Qed.
 
 Lemma graph_sched sched w ths :
   J w -> Forall (fun po => prog_ok (fst po)) ths ->
-  c_hazard (runs sched (init_c w ths)) = false ->
   edges_ok (c_edges (runs sched (init_c w ths))) = true /\ J (c_w (runs sched (init_c w ths))).
 Proof.
-  intros HJ Hf Hh.
-  destruct (graph_runs sched _ (mutex_init w ths) (inv_init w ths) (G_init w ths HJ Hf) Hh) as [_ [H1 H2]].
+  intros HJ Hf.
+  destruct (graph_runs sched _ (mutex_init w ths) (inv_init w ths) (G_init w ths HJ Hf)) as [_ [H1 H2]].
   split; assumption.
 Qed.
 
@@ -472,7 +434,7 @@ Proof.
     destruct a; cbn [c_edges c_w w_st]; try exact H.
     + destruct (c_lock c); exact H.
     + destruct (c_lock c); exact H.
-    + apply write_chained. exact H.
+    + destruct (c_lock c); exact H.
   - destruct (sec_commit sec) as [[d u]|]; cbn [c_edges c_w w_st]; [apply write_chained|]; exact H.
   - exact H.
 Qed.
@@ -514,36 +476,39 @@ Proof.
 Qed.
 
 (* ------------------------------------------------------------------------------------------ *)
-(* Witnesses: the schedules that refute the unrestricted statements *)
+(* The schedules that refuted the statements while the forced state was set without the mutex
+   (recorded as C01-a and C01-b, repaired by Environment.ForceError), kept as regression examples *)
 
 (* C01-a: environment CONFIGURED; thread 0 = forced teardown, thread 1 = ControlEnvironment(START).
    Thread 1 looks the environment up, thread 0 runs (lookup, lock, commit DONE + unlist, unlock),
-   then thread 1 executes: START refused in DONE, GO_ERROR refused in DONE, state forced to ERROR. *)
+   then thread 1 executes: START refused in DONE, GO_ERROR refused in DONE, forced state refused in
+   DONE: the environment stays DONE, the caller gets Aborted / DONE. *)
 Definition wit_stale_threads : list (prog * oracle) :=
   [(prog_of (QTeardown true), no_faults); (prog_of (QControl oSTART_ACTIVITY), no_faults)].
-Definition wit_stale_sched : list nat := [1; 0; 0; 0; 0; 1; 1; 1; 1; 1; 1; 1; 1]%nat.
+Definition wit_stale_sched : list nat := [1; 0; 0; 0; 0; 1; 1; 1; 1; 1; 1; 1; 1; 1; 1]%nat.
 Definition wit_stale : cstate := runs wit_stale_sched (init_c (mkWorld sCONFIGURED true) wit_stale_threads).
 
 Lemma wit_stale_edges :
-  c_edges wit_stale = [(sDONE, sERROR); (sCONFIGURED, sDONE)] /\
-  w_st (c_w wit_stale) = sERROR /\ w_listed (c_w wit_stale) = false /\ c_hazard wit_stale = true /\
-  forallb th_done (c_threads wit_stale) = true.
+  c_edges wit_stale = [(sCONFIGURED, sDONE)] /\
+  w_st (c_w wit_stale) = sDONE /\ w_listed (c_w wit_stale) = false /\
+  map th_abs (c_threads wit_stale) = [(Ret 0 None, no_faults); (Ret 3 (Some sDONE), no_faults)].
 Proof. vm_compute. repeat split; reflexivity. Qed.
 
 (* C01-b: environment DEPLOYED, the before_GO_ERROR hook fails; thread 0 = ControlEnvironment(START)
-   (illegal; fallback cancelled; ERROR forced without the mutex), thread 1 = ControlEnvironment(CONFIGURE).
-   Thread 0 runs up to its forced state, thread 1 takes the mutex, thread 0 forces ERROR, thread 1
-   commits CONFIGURED. *)
+   (illegal; fallback cancelled; ERROR to be forced), thread 1 = ControlEnvironment(CONFIGURE).
+   Thread 0 runs up to its forced state, thread 1 takes the mutex; thread 0 now waits for it;
+   thread 1 commits CONFIGURED and answers; thread 0 forces ERROR: DEPLOYED -> CONFIGURED -> ERROR. *)
 Definition wit_race_oracle : oracle := mkOracle [MBefore eGO_ERROR] [] false false.
 Definition wit_race_threads : list (prog * oracle) :=
   [(prog_of (QControl oSTART_ACTIVITY), wit_race_oracle); (prog_of (QControl oCONFIGURE), wit_race_oracle)].
-Definition wit_race_sched : list nat := [0; 0; 0; 0; 0; 0; 0; 1; 1; 0; 0; 1; 1; 1]%nat.
+Definition wit_race_sched : list nat := [0; 0; 0; 0; 0; 0; 0; 1; 1; 0; 0; 1; 1; 1; 0; 0; 0; 0]%nat.
 Definition wit_force_race : cstate := runs wit_race_sched (init_c (mkWorld sDEPLOYED true) wit_race_threads).
 
 Lemma wit_force_race_edges :
-  c_edges wit_force_race = [(sERROR, sCONFIGURED); (sDEPLOYED, sERROR)] /\
-  w_st (c_w wit_force_race) = sCONFIGURED /\ c_hazard wit_force_race = true /\
-  forallb th_done (c_threads wit_force_race) = true.
+  c_edges wit_force_race = [(sCONFIGURED, sERROR); (sDEPLOYED, sCONFIGURED)] /\
+  w_st (c_w wit_force_race) = sERROR /\
+  map th_abs (c_threads wit_force_race) =
+    [(Ret 3 (Some sERROR), wit_race_oracle); (Ret 0 (Some sCONFIGURED), wit_race_oracle)].
 Proof. vm_compute. repeat split; reflexivity. Qed.
 
 (* ------------------------------------------------------------------------------------------ *)
@@ -570,24 +535,24 @@ Proof.
   - eapply IH; eassumption.
 Qed.
 
-(* the graph, and DONE being terminal, for every schedule of every set of requests, provided no
-   forced state lands inside somebody's locked section or on a DONE environment *)
+(* the graph, and DONE being terminal, for every schedule of every set of requests of every kind
+   of caller (API, watcher, auto-stop timer, bare TryTransition) *)
 Lemma graph_sched_reqs sched reqs w :
   Forall (fun qo => req_ok (fst qo)) reqs -> J w ->
-  c_hazard (runs sched (init_c w (req_threads reqs))) = false ->
   edges_ok (c_edges (runs sched (init_c w (req_threads reqs)))) = true /\
   chained (w_st w) (c_edges (runs sched (init_c w (req_threads reqs))))
           (w_st (c_w (runs sched (init_c w (req_threads reqs))))) /\
   (forall e, In e (c_edges (runs sched (init_c w (req_threads reqs)))) -> fst e <> sDONE) /\
   J (c_w (runs sched (init_c w (req_threads reqs)))).
 Proof.
-  intros Hr HJ Hh.
-  destruct (graph_sched sched w _ HJ (req_threads_ok reqs Hr) Hh) as [He HJ'].
+  intros Hr HJ.
+  destruct (graph_sched sched w _ HJ (req_threads_ok reqs Hr)) as [He HJ'].
   pose proof (edges_chained sched w (req_threads reqs)) as Hc.
   split; [exact He|]. split; [exact Hc|]. split; [|exact HJ'].
   eapply edges_no_done; eassumption.
 Qed.
 
+(* the full statements over concurrent API requests (refuted before the repair of C01-a / C01-b) *)
 Definition graph_sched_statement : Prop :=
   forall sched (reqs : list (req * oracle)) w,
     Forall (fun qo => api_req (fst qo)) reqs -> J w -> w_listed w = true ->
@@ -598,35 +563,19 @@ Definition done_terminal_statement : Prop :=
     Forall (fun qo => api_req (fst qo)) reqs -> J w -> w_listed w = true ->
     forall e, In e (c_edges (runs sched (init_c w (req_threads reqs)))) -> fst e <> sDONE.
 
-Lemma done_terminal_refuted : ~ done_terminal_statement.
+Lemma graph_sched_holds : graph_sched_statement.
 Proof.
-  intro H.
-  specialize (H wit_stale_sched [(QTeardown true, no_faults); (QControl oSTART_ACTIVITY, no_faults)]
-                (mkWorld sCONFIGURED true)).
-  assert (Ha : Forall (fun qo : req * oracle => api_req (fst qo))
-                      [(QTeardown true, no_faults); (QControl oSTART_ACTIVITY, no_faults)])
-    by (repeat constructor).
-  assert (HJ : J (mkWorld sCONFIGURED true)) by (intro E; discriminate E).
-  specialize (H Ha HJ eq_refl (sDONE, sERROR)).
-  apply H; [|reflexivity]. vm_compute. left. reflexivity.
+  intros sched reqs w Ha HJ _. apply (graph_sched_reqs sched reqs w (api_all_ok _ Ha) HJ).
 Qed.
 
-Lemma graph_sched_refuted : ~ graph_sched_statement.
+Lemma done_terminal_holds : done_terminal_statement.
 Proof.
-  intro H.
-  specialize (H wit_race_sched [(QControl oSTART_ACTIVITY, wit_race_oracle); (QControl oCONFIGURE, wit_race_oracle)]
-                (mkWorld sDEPLOYED true)).
-  assert (Ha : Forall (fun qo : req * oracle => api_req (fst qo))
-                      [(QControl oSTART_ACTIVITY, wit_race_oracle); (QControl oCONFIGURE, wit_race_oracle)])
-    by (repeat constructor).
-  assert (HJ : J (mkWorld sDEPLOYED true)) by (intro E; discriminate E).
-  specialize (H Ha HJ eq_refl). vm_compute in H. discriminate H.
+  intros sched reqs w Ha HJ _. apply (graph_sched_reqs sched reqs w (api_all_ok _ Ha) HJ).
 Qed.
 
 (* the refinement, stated over requests: the world reached and every thread's remaining program
    (for finished threads: result code and reported state) are those of an atomic execution *)
 Lemma serial_refinement_reqs sched reqs w :
-  c_hazard (runs sched (init_c w (req_threads reqs))) = false ->
   exists order, subseq order sched /\
     abs (runs sched (init_c w (req_threads reqs))) = run_atomic order (w, req_threads reqs).
 Proof. apply serial_refinement. Qed.
